@@ -176,6 +176,32 @@ package assertiontree
 //@ method go/ast.Expr Pos fn
 //@ func (*RootAssertionNode).LocationOf
 //@ inline
+
+//@ -- C20 (call-site bookkeeping, calls with constant-like arguments): such a call is tracked as a stable expression and
+//@ -- its producer is resolved by DefaultTrigger. When the callee is a function under contract analysed in this package
+//@ -- (its triggers are duplicated per call site and write to the call-site result site), the producer is that
+//@ -- call-site site too, located at the call expression - not the callee's shared result site, which the duplicated
+//@ -- triggers never write (a literal nil argument would otherwise be hidden by the contract).
+//@ -- the root of a node is a function of the node (the tree is not modified by DefaultTrigger; body not verified here)
+//@ func (*assertionNodeCommon).Root
+//@ pure
+//@ nobody
+//@ func (*RootAssertionNode).HasContract
+//@ inline
+//@ func (*RootAssertionNode).Pass
+//@ inline
+//@ func (*funcAssertionNode).DefaultTrigger
+//@ prop C20
+//@ modifies *
+//@ ensures contracted-stable-call-uses-the-call-site-result-site
+//@    (=> (old (and (not (isnil (local root))) (not (isnil f.call)) (mapin (. (local root) functionContext funcContracts) f.decl)
+//@             (= (call |(*go/types.Func).Pkg| f.decl) (. (local root) functionContext pass Pass Pkg))
+//@             (not (. (local root) functionContext functionConfig EnableStructInitV2))))
+//@        (and (= (calls "NewCallSiteRetKey") 1) (= (calls "RetKeyFromRetNum") 0)))
+//@ ensures call-site-result-site-keyed-at-the-call-expression
+//@    (=> (> (calls "NewCallSiteRetKey") 0)
+//@        (and (= (callarg "NewCallSiteRetKey" 0 0) f.decl) (= (callarg "NewCallSiteRetKey" 0 1) 0)
+//@             (= (callarg "NewCallSiteRetKey" 0 2) (call |(*go.uber.org/nilaway/util/analysishelper.EnhancedPass).PosToLocation| (. (local root) functionContext pass) (mcall Pos (typed ast.Expr (iface *ast.CallExpr f.call)))))))
 //@ func (*RootAssertionNode).getFuncReturnProducers
 //@ prop C20
 //@ modifies *
